@@ -22,6 +22,11 @@ type SolverStats struct {
 	Unknown  int64
 	Errors   int64
 	NanosSum int64
+	// Fallback: queries the primary solver answered "unknown" that were re-asked to the
+	// second solver (a fresh one-shot process fed the whole session), and how many of
+	// those it decided.
+	FallbackAsked   int64
+	FallbackDecided int64
 }
 
 var globalSolverStats SolverStats
@@ -39,6 +44,10 @@ type Solver struct {
 	dump      *os.File
 	dead      bool
 	lastErr   string
+	lastCheck string   // the last (check-sat...) line sent
+	log       []string // every line sent since the last (reset): replayed into the fallback solver
+	alt       *Solver  // fallback session that produced the last answer (nil: the primary did)
+	noAlt     bool     // this IS a fallback session
 }
 
 func solverArgv(kind string, timeoutMs int) []string {
@@ -90,6 +99,10 @@ func (s *Solver) start() error {
 }
 
 func (s *Solver) Close() {
+	if s.alt != nil {
+		s.alt.Close()
+		s.alt = nil
+	}
 	if s.cmd != nil {
 		s.inRaw.Close()
 		s.cmd.Process.Kill()
@@ -103,12 +116,34 @@ func (s *Solver) send(line string) {
 		s.dump.WriteString(line)
 		s.dump.WriteString("\n")
 	}
+	if !s.noAlt {
+		if strings.HasPrefix(line, "(check-sat") {
+			s.lastCheck = line
+		}
+		if line == "(reset)" {
+			s.log = s.log[:0]
+		} else if !strings.HasPrefix(line, "(check-sat") && !strings.HasPrefix(line, "(get-value") {
+			s.log = append(s.log, line)
+		}
+	}
 	s.in.WriteString(line)
 	s.in.WriteByte('\n')
 }
 
+// fallbackKind is the second solver asked when the primary answers "unknown".
+func fallbackKind(kind string) string {
+	if kind == "z3" {
+		return "z3-new"
+	}
+	return "z3"
+}
+
 // Reset starts a fresh session for the given term pool.
 func (s *Solver) Reset(pool *TermPool) {
+	if s.alt != nil {
+		s.alt.Close()
+		s.alt = nil
+	}
 	if s.dead {
 		s.Close()
 		if err := s.start(); err != nil {
@@ -230,7 +265,14 @@ func (s *Solver) readSexp() (string, error) {
 // (may be nil) are satisfiable. Returns "sat", "unsat" or "unknown".
 func (s *Solver) Check(assume *Term) string {
 	t0 := time.Now()
+	if s.alt != nil {
+		s.alt.Close()
+		s.alt = nil
+	}
 	res := s.check1(assume)
+	if res == "unknown" && !s.noAlt && !s.dead && os.Getenv("SYMGO_NO_FALLBACK") == "" {
+		res = s.askFallback()
+	}
 	atomic.AddInt64(&globalSolverStats.Queries, 1)
 	atomic.AddInt64(&globalSolverStats.NanosSum, int64(time.Since(t0)))
 	switch res {
@@ -242,6 +284,64 @@ func (s *Solver) Check(assume *Term) string {
 		atomic.AddInt64(&globalSolverStats.Unknown, 1)
 	}
 	return res
+}
+
+// askFallback replays the session into a fresh process of the second solver and repeats the
+// last query there. Its answer is used only when it is sat or unsat; a sat answer keeps the
+// process alive so that GetValues reads the model from it.
+func (s *Solver) askFallback() string {
+	atomic.AddInt64(&globalSolverStats.FallbackAsked, 1)
+	alt := &Solver{kind: fallbackKind(s.kind), timeoutMs: s.timeoutMs, noAlt: true}
+	if err := alt.start(); err != nil {
+		return "unknown"
+	}
+	alt.declared = s.declared
+	alt.send("(set-option :print-success false)")
+	alt.send("(set-option :produce-models true)")
+	if alt.kind != "cvc5" {
+		alt.send("(set-option :timeout " + strconv.Itoa(s.timeoutMs) + ")")
+	}
+	for _, l := range s.log {
+		if strings.HasPrefix(l, "(set-option") {
+			continue
+		}
+		alt.send(l)
+	}
+	alt.send(s.lastCheck)
+	alt.in.Flush()
+	res := alt.readAnswer()
+	switch res {
+	case "sat":
+		atomic.AddInt64(&globalSolverStats.FallbackDecided, 1)
+		s.alt = alt
+		return res
+	case "unsat":
+		atomic.AddInt64(&globalSolverStats.FallbackDecided, 1)
+	}
+	alt.Close()
+	return res
+}
+
+// readAnswer reads one check-sat answer (used for the fallback process).
+func (s *Solver) readAnswer() string {
+	sawErr := false
+	for {
+		line, err := s.readLine()
+		if err != nil {
+			return "unknown"
+		}
+		switch {
+		case line == "sat" || line == "unsat":
+			if sawErr {
+				return "unknown"
+			}
+			return line
+		case line == "unknown" || strings.HasPrefix(line, "timeout"):
+			return "unknown"
+		case strings.HasPrefix(line, "(error"):
+			sawErr = true
+		}
+	}
 }
 
 func (s *Solver) check1(assume *Term) string {
@@ -294,6 +394,10 @@ func (s *Solver) check1(assume *Term) string {
 // GetValues returns the model values (as bit patterns) of the pool's input variables.
 // Must follow a "sat" answer.
 func (s *Solver) GetValues(vars []*Term) (Model, error) {
+	if s.alt != nil {
+		s.alt.declared = s.declared
+		return s.alt.GetValues(vars)
+	}
 	m := Model{}
 	var names []string
 	for _, v := range vars {
